@@ -213,4 +213,65 @@
         lemma_cwv_post(nfa, verif_me.states@, verif_me.mapper.table@, verif_me.mapper.alphabet_size, verif_me.block_len, num_states, into_items(patvals), verif_self.match_kind);
     }
 //@}
+//@fn build
+//@rules R27 R22 R3into R11 R23b
+//@ret r
+//@head{
+    requires self.states@.len() == 0, self.num_free_blocks >= 1, into_lawful(patterns), into_items(patterns).len() < usize::MAX,
+        <V as vstd::std_specs::convert::TryFromSpec<usize>>::obeys_try_from_spec(),
+        total_chars(indexed::<P, V>(into_items(patterns)), into_items(patterns).len() as int) < u32::MAX
+    ensures match r {
+        Ok(pma) => (forall|j: int| 0 <= j < into_items(patterns).len() ==> conv_ok::<V>(j)) && pma.match_kind == self.match_kind
+            && cwv_post(pma.states@, pma.mapper.table@, pma.outputs@, pma.num_states, indexed::<P, V>(into_items(patterns)), self.match_kind),
+        Err(e) => match e {
+            DaachorseError::InvalidConversion => exists|j: int| 0 <= j < into_items(patterns).len() && !conv_ok::<V>(j),
+            DaachorseError::InvalidArgument => into_items(patterns).len() == 0 || has_empty(indexed::<P, V>(into_items(patterns))) || has_huge(indexed::<P, V>(into_items(patterns))),
+            DaachorseError::DuplicatePattern => has_dup(indexed::<P, V>(into_items(patterns))),
+            DaachorseError::AutomatonScale => true,
+        },
+    }
+//@}
+//@start{
+    let ghost ps = into_items(patterns);
+//@}
+//@loop 1{
+    invariant ps == into_items(patterns), ps.len() < usize::MAX, 0 <= verif_i <= ps.len(),
+        <V as vstd::std_specs::convert::TryFromSpec<usize>>::obeys_try_from_spec(),
+        verif_it1.obeys_prophetic_iter_laws(), verif_it1.decrease().is_some(), verif_it1.remaining() == ps.skip(verif_i as int),
+        patvals@.len() == verif_i,
+        forall|j: int| 0 <= j < verif_i ==> #[trigger] conv_ok::<V>(j),
+        forall|j: int| 0 <= j < verif_i ==> #[trigger] patvals@[j] == (ps[j], conv_val::<V>(j)),
+    ensures verif_i == ps.len(),
+    decreases verif_it1.decrease().unwrap(),
+//@}
+//@before 1 match V::try_from({
+    let ghost pv0 = patvals@;
+    proof { assert(ps.skip(verif_i as int)[0] == ps[verif_i as int]); assert(p == ps[verif_i as int]); }
+//@}
+//@before 1 return Err(DaachorseError::{
+    proof { assert(!conv_ok::<V>(verif_i as int)); }
+//@}
+//@after 1 verif_i += 1;{
+    proof {
+        let i0 = verif_i as int - 1;
+        assert(ps.skip(i0).skip(1) =~= ps.skip(verif_i as int));
+        assert(patvals@.len() == pv0.len() + 1 && pv0.len() == i0);
+        assert(conv_ok::<V>(i0));
+        assert(patvals@[i0] == (ps[i0], conv_val::<V>(i0)));
+        assert forall|j: int| 0 <= j < verif_i implies #[trigger] patvals@[j] == (ps[j], conv_val::<V>(j)) by {
+            if j < i0 { assert(patvals@[j] == pv0[j]); }
+        }
+        assert(verif_it1.remaining() == ps.skip(verif_i as int));
+    }
+//@}
+//@before 1 Self::build_with_values(self, patvals){
+    let ghost pv = patvals@;
+    proof {
+        assert(verif_i == ps.len());
+        assert(pv =~= indexed::<P, V>(ps));
+        axiom_vec_into_items(patvals);
+        assert(into_items(patvals) == indexed::<P, V>(ps));
+        assert(forall|j: int| 0 <= j < ps.len() ==> conv_ok::<V>(j));
+    }
+//@}
 //@endimpl
